@@ -14,15 +14,27 @@ pub fn vf_bvh_candidates(polyline: &Polyline, ray: &Ray) -> (r: RayVisitor)
     ensures forall|k: int| 0 <= k < r.collector.len() ==> (#[trigger] r.collector[k]) as int + 1 < polyline.verts().len()
 { unimplemented!() }
 
+// first component (the line parameter) of entry i
+pub open spec fn prm(s: Seq<(f64, usize)>, i: int) -> real { rv(s[i].0) }
 pub open spec fn sorted_by_param(s: Seq<(f64, usize)>) -> bool {
-    forall|i: int, j: int| 0 <= i <= j < s.len() ==> rv((#[trigger] s[i]).0) <= rv((#[trigger] s[j]).0)
+    forall|i: int, j: int| 0 <= i <= j < s.len() ==> #[trigger] prm(s, i) <= #[trigger] prm(s, j)
+}
+// `out` is `inp` rearranged by the index map perm (injective, hence a permutation since the lengths agree)
+pub open spec fn rearranged(out: Seq<(f64, usize)>, inp: Seq<(f64, usize)>, perm: Seq<int>) -> bool {
+    &&& perm.len() == out.len() && out.len() == inp.len()
+    &&& forall|i: int| 0 <= i < perm.len() ==> 0 <= #[trigger] perm[i] < inp.len() && out[i] == inp[perm[i]]
+    &&& forall|i: int, j: int| 0 <= i < j < perm.len() ==> #[trigger] perm[i] != #[trigger] perm[j]
+}
+// `out` is the subsequence of `inp` selected by the strictly increasing index map idx
+pub open spec fn subsequence(out: Seq<(f64, usize)>, inp: Seq<(f64, usize)>, idx: Seq<int>) -> bool {
+    &&& idx.len() == out.len()
+    &&& forall|i: int| 0 <= i < idx.len() ==> 0 <= #[trigger] idx[i] < inp.len() && out[i] == inp[idx[i]]
+    &&& forall|i: int, j: int| 0 <= i < j < idx.len() ==> #[trigger] idx[i] < #[trigger] idx[j]
 }
 #[verifier::external_body]
 pub fn vf_sort_by_param(v: &mut Vec<(f64, usize)>)
     ensures
-        final(v).len() == old(v).len(),
-        forall|k: int| 0 <= k < final(v).len() ==> exists|j: int| 0 <= j < old(v).len() && #[trigger] final(v)[k] == #[trigger] old(v)[j],
-        forall|j: int| 0 <= j < old(v).len() ==> exists|k: int| 0 <= k < final(v).len() && #[trigger] final(v)[k] == #[trigger] old(v)[j],
+        exists|perm: Seq<int>| #[trigger] rearranged(final(v)@, old(v)@, perm),
         sorted_by_param(final(v)@),
 { unimplemented!() }
 #[verifier::external_body]
@@ -30,10 +42,8 @@ pub fn vf_dedup_by_param(v: &mut Vec<(f64, usize)>, tol: f64)
     ensures
         final(v).len() <= old(v).len(),
         old(v).len() > 0 ==> final(v).len() > 0 && final(v)[0] == old(v)[0],
-        exists|idx: Seq<int>| idx.len() == final(v).len()
-            && (forall|i: int| 0 <= i < idx.len() ==> 0 <= #[trigger] idx[i] < old(v).len() && final(v)[i] == old(v)[idx[i]])
-            && (forall|i: int, j: int| 0 <= i < j < idx.len() ==> idx[i] < idx[j]),
+        exists|idx: Seq<int>| #[trigger] subsequence(final(v)@, old(v)@, idx),
         forall|i: int| 0 <= i < final(v).len() - 1 ==> {
-            let d = rv((#[trigger] final(v)[i + 1]).0) - rv(final(v)[i].0);
+            let d = prm(final(v)@, i + 1) - #[trigger] prm(final(v)@, i);
             (if d >= 0real { d } else { -d }) >= rv(tol) },
 { unimplemented!() }
